@@ -248,6 +248,29 @@ func (g *cgen) intC(around []int64) *IntC {
 }
 
 func (g *cgen) strC(samples []string) *StrC {
+	c := g.strC0(samples)
+	if g.r.Chance(30) {
+		// the same test on a string of another case: matches only case-insensitively
+		c.CaseInsensitive = g.r.Chance(70)
+		c.Equals, c.Contains, c.HasPrefix, c.HasSuffix = swapCase(c.Equals), swapCase(c.Contains), swapCase(c.HasPrefix), swapCase(c.HasSuffix)
+	}
+	return c
+}
+
+func swapCase(s string) string {
+	b := []byte(s)
+	for i, c := range b {
+		switch {
+		case c >= 'a' && c <= 'z':
+			b[i] = c - 32
+		case c >= 'A' && c <= 'Z':
+			b[i] = c + 32
+		}
+	}
+	return string(b)
+}
+
+func (g *cgen) strC0(samples []string) *StrC {
 	s := "x"
 	if len(samples) > 0 {
 		s = samples[g.r.Intn(len(samples))]
@@ -397,6 +420,11 @@ func (g *cgen) perm(depth int) *PermC {
 		p.Attr, p.Value = a, v
 	case 2:
 		p.Attr, p.ValueMatches = a, g.strC([]string{v})
+		if g.r.Chance(25) {
+			// the shape a planner might mistake for pinning the node type
+			nt := g.pick(nodeTypes[:2])
+			p.Attr, p.ValueMatches = "camliNodeType", &StrC{Equals: swapCase(nt), CaseInsensitive: g.r.Chance(80)}
+		}
 	case 3:
 		p.Attr, p.ValueMatchesInt = "n", g.intC([]int64{5, -3, 12, 7})
 	case 4:
